@@ -180,10 +180,12 @@ func verifC06_SignVerify() {
 	// new value is symbolic (it may coincide with the signed value: then nothing was changed)
 	signed := vParts{method: "POST", path: "/a", query: "x", header: "t", body: []byte{7}}
 	r1 := signed.request()
-	s := New().SetCredential("key1", "secret1").SetAccessKeyStore(vKeyStore{})
+	// the client signs with its own signer; the Validator's signer is built from a spec that
+	// lists the known access keys only (as the Validator filter does)
+	client := New().SetCredential("key1", "secret1")
+	s := CreateFromSpec(&Spec{AccessKeys: map[string]string{"key1": "secret1"}, TTL: "1m"})
 	ttl := time.Minute
-	s.SetTTL(ttl)
-	verifAssert(s.NewContext(vSignTime, "scope1").Sign(r1) == nil, "signing-succeeds")
+	verifAssert(client.NewContext(vSignTime, "scope1").Sign(r1) == nil, "signing-succeeds")
 	auth, date := r1.Header.Get("Authorization"), r1.Header.Get("X-Me-Date")
 	verifAssert(auth != "" && date != "", "signature-headers-set")
 
@@ -210,6 +212,15 @@ func verifC06_SignVerify() {
 		r2.Header.Set("Authorization", "ME-HMAC-SHA256 Credential=key2"+auth[len("ME-HMAC-SHA256 Credential=key1"):])
 		verifCover("unknown-key")
 	}
+	forged := verifBool("signedAfreshWithAnAccessKeyNobodyConfigured")
+	if forged {
+		// a well-formed signature over exactly this request, made with credentials that are
+		// not among the configured access keys (the empty id with the empty secret included)
+		cred := [][2]string{{"", ""}, {"key9", "secret1"}, {"key1x", ""}}[verifChoose("forgedCredential", 3)]
+		r2 = sent.request()
+		verifAssert(New().SetCredential(cred[0], cred[1]).NewContext(vSignTime, "scope1").Sign(r2) == nil, "signing-succeeds")
+		verifCover("forged-signature")
+	}
 	ages := []time.Duration{0, ttl, -ttl, ttl + 1, -ttl - 1}
 	vVerifyAge = ages[verifChoose("ageAtVerification", len(ages))]
 	err := s.Verify(r2)
@@ -217,7 +228,7 @@ func verifC06_SignVerify() {
 	same := signed.method == sent.method && signed.path == sent.path && signed.query == sent.query &&
 		signed.header == sent.header && vSameBytes(signed.body, sent.body)
 	inTTL := vVerifyAge >= -ttl && vVerifyAge <= ttl
-	knownKey := r2.Header.Get("Authorization") == auth
+	knownKey := r2.Header.Get("Authorization") == auth && !forged
 	verifAssert((err == nil) == (same && inTTL && knownKey), "verifies-iff-every-covered-part-is-unchanged-within-ttl-known-key")
 	if err == nil {
 		verifCover("verified")
